@@ -86,6 +86,7 @@ class Engine:
         self.budget_paths = budget_paths
         self.axioms = list(T.base_axioms()) + list(reg.axioms)
         self.report = None
+        self._hk = {}
         self.known = {}
         self._entail_cache = {}
         self.class_index = {}
@@ -288,8 +289,18 @@ class Engine:
     def field_kind(self, cls, attr):
         return self.reg.fields.get(cls, {}).get(attr, "V")
 
+    def heap_init_value(self, st, key):
+        """the (lazily named) value a field has in state st when it was neither read nor written yet"""
+        kind = self._hk.get(key, "V")
+        ver = st.hver.get(key, 0)
+        nm = f"{key[0]}.{key[1]}@{ver}"
+        if kind.startswith("z3:"):
+            return self.reg.spec["__mk_" + kind[3:]](nm)
+        return named(kind, nm)
+
     def heap_get(self, st, o, attr):
         key = (self.objkey(o), attr)
+        self._hk[key] = self.field_kind(o.meta.get("cls"), attr)
         if key in st.heap:
             return st.heap[key]
         ver = st.hver.get(key, 0)
@@ -304,6 +315,7 @@ class Engine:
 
     def heap_set(self, st, o, attr, val, fr):
         kind = self.field_kind(o.meta.get("cls"), attr)
+        self._hk[(self.objkey(o), attr)] = kind
         if not kind.startswith("z3:"):
             if kind == "V" and val.k in ("py", "iter"):
                 pass  # python-level payloads are stored as they are (closures, iterators)
